@@ -85,13 +85,24 @@ class ReproCase(Case):
                 return env.arr(out)
 
         class StubEngine:
+            """like SciPy's scrambled engines: the scrambling is fixed by the generator given at construction,
+            reset() restarts the sequence; `rng` is a settable attribute"""
+
             def __init__(self, d, seed=None, **opts):
-                self.d, self.g = d, seed
+                self.d, self.g, self.rng, self.pos = d, seed, seed, 0
+
+            def reset(self):
+                self.pos = 0
+                return self
 
             def random(self, n):
                 out = np.empty((n, self.d), dtype=object)
                 for idx in np.ndindex(n, self.d):
-                    out[idx] = draw(self.g)
+                    if isinstance(self.g, Stream):
+                        out[idx] = inp["u"][self.g.key][self.pos]
+                        self.pos += 1
+                    else:
+                        out[idx] = draw(self.g)
                 return env.arr(out)
 
         def stub_scale(sample, l_bounds, u_bounds):
@@ -220,6 +231,7 @@ def build_cases(tier):
         k += 1
         c = ReproCase(f"c16-{k:03d}", **kw)
         c.expect_sat = ("canary:another_seed_gives_the_same_perturbations",)
+        c.must_differ = ("canary:another_seed_gives_the_same_perturbations",)   # "changing only the seed changes the perturbations"
         cases.append(c)
 
     for m in STATS + QMC:
